@@ -502,6 +502,66 @@ fn sweep_case(run: &Run, s: usize, l: usize, n: usize, must_succeed: bool) -> Ca
 	}
 }
 
+/// the same sweep through the executable's own options: `-s/--max-stack L` (default 512 when absent) with and
+/// without `--os-stack` (evaluation on a spawned thread)
+fn cli_sweep_points() -> Vec<(usize, Option<usize>, bool, usize, bool)> {
+	let mut v = vec![];
+	for name in ["plain", "mutual", "method", "foldl-callback", "local-chain"] {
+		let s = SHAPES.iter().position(|x| x.0 == name).expect("shape");
+		for limit in [None, Some(50usize), Some(2000)] {
+			for os_stack in [false, true] {
+				let l = limit.unwrap_or(512);
+				for (n, ok) in [(l / 16, true), (l / 2 + l / 8, true), (2 * l, false)] {
+					// depths between the library default (200) and the configured limit matter: `l/2 + l/8`
+					if SHAPES[s].0 != "plain" && n > l / 16 && ok {
+						continue;
+					}
+					v.push((s, limit, os_stack, n.max(1), ok));
+				}
+			}
+		}
+	}
+	v
+}
+fn cli_sweep_case(s: usize, limit: Option<usize>, os_stack: bool, n: usize, must_succeed: bool) -> CaseOut {
+	let (name, tmpl) = SHAPES[s];
+	let code = tmpl.replace('N', &n.to_string());
+	let mut args: Vec<String> = vec![];
+	if let Some(l) = limit {
+		args.push("--max-stack".into());
+		args.push(l.to_string());
+	}
+	if os_stack {
+		args.push("--os-stack".into());
+		args.push("16".into());
+	}
+	let text = format!("jrsonnet {} -e '{code}'   [{name}, depth {n}]", args.join(" "));
+	args.push("-e".into());
+	args.push(code);
+	let out = match std::process::Command::new("/verif/target/repo/debug/jrsonnet").args(&args).output() {
+		Ok(o) => o,
+		Err(e) => return CaseOut::discard(text, &format!("cannot run the executable: {e}")),
+	};
+	let (so, se) = (String::from_utf8_lossy(&out.stdout).into_owned(), String::from_utf8_lossy(&out.stderr).into_owned());
+	let mut problems = vec![];
+	match (out.status.code(), must_succeed) {
+		(Some(0), true) => {
+			if so.trim() != n.to_string() {
+				problems.push(format!("printed {} instead of {n}", clipn(so.trim(), 60)));
+			}
+		}
+		(Some(0), false) => problems.push(format!("recursion of depth {n} succeeded ({}) although the frame limit is {}", clipn(so.trim(), 40), limit.unwrap_or(512))),
+		(Some(1), false) if se.contains("stack overflow") => {}
+		(Some(1), true) => problems.push(format!("recursion of depth {n}, below the frame limit {}, failed: {}", limit.unwrap_or(512), clipn(se.trim(), 200))),
+		(code, _) => problems.push(format!("unexpected exit status {code:?}: {}", clipn(se.trim(), 300))),
+	}
+	if problems.is_empty() {
+		CaseOut::pass(text, true).class(if os_stack { "cli-sweep:os-stack" } else { "cli-sweep:main-thread" })
+	} else {
+		CaseOut::fail(text, problems.join("\n")).class("cli-sweep")
+	}
+}
+
 // ================================================================================================ e. self-dependent values
 
 fn wrap_ref(src: &mut Src, r: &str) -> String {
@@ -520,12 +580,12 @@ fn wrap_ref(src: &mut Src, r: &str) -> String {
 /// returns (program, files, description); `broken` replaces the closing edge of the cycle by a constant (control)
 fn cycle_program(src: &mut Src, broken: bool) -> (String, Vec<(String, String)>, &'static str) {
 	let k = src.range(1, 4) as usize;
-	let kind = src.below(8);
+	let kind = src.below(11);
 	let mut refs: Vec<String> = vec![];
 	let name = |i: usize| match kind {
 		0 => format!("v{i}"),
 		1 | 5 | 7 => format!("self.f{i}"),
-		2 => format!("arr[{i}]"),
+		2 | 8 | 9 | 10 => format!("arr[{i}]"),
 		3 => format!("p{i}"),
 		4 => format!("$.f{i}"),
 		_ => format!("(import 'n{i}.libsonnet')"),
@@ -553,6 +613,10 @@ fn cycle_program(src: &mut Src, broken: bool) -> (String, Vec<(String, String)>,
 			vec![],
 			"fields-read-by-assertion",
 		),
+		// elements computed by a function (std.makeArray / std.map / std.mapWithIndex) that read each other
+		8 => (format!("local arr = std.makeArray({k}, function(i) [{}][i]); arr[0]", refs.join(", ")), vec![], "makeArray-elements"),
+		9 => (format!("local arr = std.map(function(i) [{}][i], std.range(0, {})); arr[0]", refs.join(", "), k - 1), vec![], "map-elements"),
+		10 => (format!("local arr = std.mapWithIndex(function(i, x) [{}][i], std.range(1, {k})); arr[0]", refs.join(", ")), vec![], "mapWithIndex-elements"),
 		_ => ("import 'n0.libsonnet'".to_owned(), (0..k).map(|i| (format!("n{i}.libsonnet"), refs[i].clone())).collect(), "imports"),
 	}
 }
@@ -820,6 +884,12 @@ pub fn run(run: &Run) {
 		sweep_case(run, s, l, n, ok)
 	});
 	mark("recursion-sweep");
+	let cs = cli_sweep_points();
+	run.enumerate("cli-stack-options", cs.len() as u64, |i| {
+		let (s, limit, os, n, ok) = cs[i as usize];
+		cli_sweep_case(s, limit, os, n, ok)
+	});
+	mark("cli-stack-options");
 	run.explore("self-dependent", run.tier.pick(6000, 100_000), 8..=40, cycle_case);
 	mark("self-dependent");
 	run.explore("histories", run.tier.pick(1500, 30_000), 8..=60, history_case);
@@ -864,6 +934,10 @@ pub fn replay(run: &Run, stage: &str, tape: Option<&[u16]>, v: &Value) -> Option
 		("recursion-sweep", _, Some(i)) => {
 			let (s, l, n, ok) = *sweep_points(run).get(i as usize)?;
 			sweep_case(run, s, l, n, ok)
+		}
+		("cli-stack-options", _, Some(i)) => {
+			let (s, limit, os, n, ok) = *cli_sweep_points().get(i as usize)?;
+			cli_sweep_case(s, limit, os, n, ok)
 		}
 		("nesting-depth", _, Some(i)) => {
 			let (nest, s, d) = *depth_points().get(i as usize)?;
